@@ -71,6 +71,111 @@ def shallow_interior_mut(t):
     return False
 
 
+HDR_PRESERVING = {
+    "alloc::vec::Vec::as_mut_ptr", "alloc::vec::Vec::as_ptr", "alloc::vec::Vec::as_mut_slice", "alloc::vec::Vec::as_slice",
+    "slice::as_mut_ptr", "slice::get_unchecked_mut", "slice::get_mut", "slice::iter_mut", "slice::iter",
+    "core::ops::deref::DerefMut::deref_mut", "core::ops::deref::Deref::deref",
+    "core::ops::index::IndexMut::index_mut", "core::ops::index::Index::index",
+    "core::iter::traits::collect::IntoIterator::into_iter",
+    "slice::reverse", "slice::sort_unstable_by_key", "slice::sort_by_key", "slice::sort_unstable", "slice::sort",
+    "slice::swap", "slice::fill", "slice::chunks_mut", "slice::split_at_mut", "slice::first_mut", "slice::last_mut",
+    "alloc::vec::Vec::len", "alloc::vec::Vec::is_empty", "alloc::vec::Vec::capacity", "slice::len",
+}
+
+
+def borrows_preserve_header(prog, f, is_root, stack):
+    """in body f, every mutable borrow of the place selected by is_root (a Vec-like value) flows only into
+    header-preserving callees or into closures that themselves preserve it"""
+    if f["path"] in stack:
+        return True
+    stack = stack | {f["path"]}
+    alias = set()       # temps holding a &mut / *mut to the root
+
+    def src_is_root_or_alias(p):
+        if is_root(p):
+            return True
+        return p["local"] in alias and all(e["k"] == "deref" for e in p["proj"])
+    changed = True
+    while changed:
+        changed = False
+        for b in f["blocks"]:
+            for st in b["stmts"]:
+                if st["k"] != "assign":
+                    continue
+                rv = st["rv"]
+                srcp = None
+                if rv["k"] in ("ref", "rawptr") and rv.get("mut", True):
+                    srcp = rv["place"]
+                elif rv["k"] == "use" and rv["op"]["k"] in ("copy", "move") and rv["op"]["place"]["local"] in alias:
+                    srcp = rv["op"]["place"]
+                elif rv["k"] == "cast" and rv["op"]["k"] in ("copy", "move") and rv["op"]["place"]["local"] in alias:
+                    srcp = rv["op"]["place"]
+                if srcp is not None and src_is_root_or_alias(srcp):
+                    d = st["place"]
+                    if d["proj"]:
+                        return False        # the borrow is stored somewhere
+                    if d["local"] not in alias:
+                        alias.add(d["local"])
+                        changed = True
+    for b in f["blocks"]:
+        for st in b["stmts"]:
+            if st["k"] != "assign":
+                continue
+            d = st["place"]
+            if is_root(d) is False and d["proj"] and is_root({"local": d["local"], "proj": []}):
+                return False                # a field of the header is assigned
+            if d["local"] in alias and d["proj"]:
+                return False                # `*borrow = ..` replaces the whole value
+            rv = st["rv"]
+            if rv["k"] == "aggregate":
+                for k, op in enumerate(rv["ops"]):
+                    if op["k"] in ("copy", "move") and op["place"]["local"] in alias and not op["place"]["proj"]:
+                        if rv["agg"] != "closure":
+                            return False
+                        cf = prog.fns.get(rv["path"])
+                        if cf is None or k >= len(cf.get("upvars", [])):
+                            return False
+                        up = cf["upvars"][k]["place"]
+
+                        def root_in_closure(p, up=up):
+                            # the captured reference itself, or the Vec behind it
+                            if p["local"] != up["local"]:
+                                return False
+                            pj, uj = p["proj"], up["proj"]
+                            strip = [e for e in uj]
+                            if len(pj) == len(strip) and all(a["k"] == c["k"] and a.get("idx") == c.get("idx") for a, c in zip(pj, strip)):
+                                return True
+                            if strip and strip[-1]["k"] == "deref" and len(pj) == len(strip) - 1 and \
+                                    all(a["k"] == c["k"] and a.get("idx") == c.get("idx") for a, c in zip(pj, strip[:-1])):
+                                return True
+                            return False
+                        if not borrows_preserve_header(prog, cf, root_in_closure, stack):
+                            return False
+        t = b["term"]
+        if t["k"] == "call":
+            fo = t["func"]
+            key = callee_key(fo["fn"]) if fo["k"] == "const" and "fn" in fo else None
+            for a in t["args"]:
+                if a["k"] in ("copy", "move") and a["place"]["local"] in alias and all(e["k"] == "deref" for e in a["place"]["proj"]):
+                    if key not in HDR_PRESERVING:
+                        return False
+            d = t["dest"]
+            if d["local"] in alias:
+                return False
+    # the closure may also use the captured place directly as a call argument (`(*_1).k` moved out)
+    for b in f["blocks"]:
+        t = b["term"]
+        if t["k"] == "call":
+            fo = t["func"]
+            key = callee_key(fo["fn"]) if fo["k"] == "const" and "fn" in fo else None
+            for a in t["args"]:
+                if a["k"] in ("copy", "move") and is_root(a["place"]) and a["place"]["proj"]:
+                    # a captured `&mut Vec` handed on as it is
+                    if key not in HDR_PRESERVING:
+                        return False
+    return True
+
+
 class Analysis:
     def __init__(self, prog, f, summaries=None):
         self.prog = prog
@@ -84,6 +189,7 @@ class Analysis:
         self.setlen_prev = {}
         self._classify_locals()
         self._points_to()
+        self.stable_hdr = self._stable_headers()
         self._collect_defs()
         self._place_phis()
         self._rename_and_terms()
@@ -672,6 +778,21 @@ class Analysis:
                     roots.add(r)
         return self.reach_writes(roots)
 
+    # -- containers whose header (pointer, length, capacity) cannot be changed by any callee ----------------
+    def _stable_headers(self):
+        """regions 'L<n>' of local Vec / VecDeque values every mutable borrow of which is handed only to
+        header-preserving operations (element access, iter_mut, ...) or to closures that do the same"""
+        out = set()
+        for L in sorted(self.mem_locals):
+            if L == 0 or L <= self.nargs:
+                continue
+            ty = self.locals[L]["ty"]
+            if not (ty["k"] == "adt" and ty.get("name") in ("Vec", "VecDeque")):
+                continue
+            if borrows_preserve_header(self.prog, self.f, lambda p, L=L: p["local"] == L and not p["proj"], set()):
+                out.add("L%d" % L)
+        return out
+
     def _collect_defs(self):
         """defs_at[(b, i)] = set of SSA variables (locals 'v<n>' and regions) defined there."""
         defs = {}
@@ -690,7 +811,7 @@ class Analysis:
             i = len(blk["stmts"])
             if t["k"] == "call":
                 ds, reg = self._place_defs(t["dest"])
-                ds = set(ds) | {r for r in self.call_writes(t) if not self.region_protected(r)}
+                ds = set(ds) | {r for r in self.call_writes(t) if not self.region_protected(r) and r not in self.stable_hdr}
                 defs[(b, i)] = ds
                 self.store_region[(b, i)] = reg
             elif t["k"] == "drop":
@@ -1249,6 +1370,11 @@ def value_behind(at, an):
 def mk_len(x, an):
     if x[0] == "unsize":
         return ("const", "usize", x[2])
+    if x[0] == "at" and x[2] is None and (x[3] != ("e",) or x[4] != ()):
+        ri = an.region_info.get(x[1])
+        if ri is not None and ri["ty"].get("k") in ("slice", "str"):
+            # the length of a slice belongs to the reference, not to the memory behind it
+            x = ("at", x[1], None, ("e",), ())
     v = value_behind(x, an) if x[0] == "at" else x
     if v is not None:
         r = len_of_value(v, an)
